@@ -332,6 +332,7 @@ META["C06"] = dict(
         "st.node.subcommand-section": g(30, 300), "st.node.subcommand-section-level2": g(5, 100),
         "st.required.required-option": g(30, 300), "st.required.required-subcommand": g(30, 300),
         "st.required.required-param-of-selected-class": g(30, 300), "st.required.required-dataclass-field": g(30, 300),
+        "st.required.required-option-of-subcommand": g(20, 200), "st.required.required-option-of-subcommand-level2": g(10, 100),
         "st.channel.argv": g(25, 400),
         "mon.parse_known_args_refused": g(20, 300),
     },
@@ -525,6 +526,7 @@ META["C19"] = dict(
     rule="A: a case is (set of mode flags, path kind); B: (depth, entry method, failing depth, path-typed keys present). Distinct "
     "by hash; every case is non-trivial (a decision is judged or logged as unspecified).",
     gates={
+        "mon.path_type_in_parser_checks": g(500, 5000),
         "mon.path_mode_checks": g(10000, 150000), "st.accept": g(500, 8000), "st.reject": g(5000, 80000),
         "permission_bits_enforced": g(4, 16),
         "st.kind.f000": g(100, 1000), "st.kind.d333": g(100, 1000), "st.kind.through-file": g(100, 1000), "st.kind.dangling-symlink": g(100, 1000),
